@@ -29,6 +29,10 @@ func main() {
 		Gen: func(r *hx.RNG, tr *hx.Trace) fsmx.Case { return fsmx.GenCase(r, "c07", tr) },
 		// every exit from Established x connection condition (healthy / writes fail / peer closed), with routes
 		// installed and a second established session that must keep its routes and refcount shares
-		Extra: func(cfg *hx.Cfg, do func(id string, c fsmx.Case)) { fsmx.ExitProduct(do, "E", true) },
+		Extra: func(cfg *hx.Cfg, do func(id string, c fsmx.Case)) {
+			fsmx.ExitProduct(do, "E", true)
+			// pairs of sessions of every kind sharing (or not) local AS and cluster id; one flaps, the other stays
+			fsmx.PairProduct(do)
+		},
 	})
 }
